@@ -495,6 +495,9 @@ var orderKeys = map[string][]sortKey{
 	"pk desc":     {{"id", true}},
 	"a desc":      {{"a", true}},               // partial
 	"b, a desc":   {{"b", false}, {"a", true}}, // partial
+	// used by the shared-base test only (not drawn by the main generator)
+	"b, id":           {{"b", false}, {"id", false}},
+	"b desc, id desc": {{"b", true}, {"id", true}},
 }
 
 var orderNames = []string{"none", "none", "a desc, id", "a desc | id", "id", "id desc", "pk", "pk desc", "a desc", "b, a desc"}
@@ -530,6 +533,10 @@ type Case struct {
 	Mode       string `json:"mode"` // all | batch (grid: only Find under key order and FindInBatches)
 	PtrBatch   bool   `json:"ptr_batch"`
 	Prefill    int    `json:"prefill"` // elements the []Rec destination of Find holds beforehand
+	// Expr: "" | where | select: the chain carries abs(b), which SQLite cannot
+	// evaluate for the smallest 64 bit integer ("integer overflow", raised when
+	// that row is reached): Where("abs(b) >= ?", 0) / Select("id, a, abs(b) AS b, s, c, d").
+	Expr string `json:"expr"`
 	// Reuse: "" | session | context: the finished chain is made reusable with
 	// Session(&gorm.Session{}) / WithContext(ctx) before any finisher is called.
 	Reuse string `json:"reuse"`
@@ -570,6 +577,9 @@ func (c Case) String() string {
 	}
 	b.WriteString(strings.Join(parts, "."))
 	fmt.Fprintf(&b, " batch=%d array=%d ptrbatch=%v prefill=%d", c.Batch, c.ArrayLen, c.PtrBatch, c.Prefill)
+	if c.Expr != "" {
+		fmt.Fprintf(&b, " runtime-error-expr=%s", c.Expr)
+	}
 	if c.Mode == "all" {
 		fmt.Fprintf(&b, " reuse=%q continue-with=Limit(%d)", c.Reuse, c.ContLimit)
 		if c.ContOffset > 0 {
@@ -790,6 +800,26 @@ type runner struct {
 	db   *testdb.DB
 	ref  *reference
 	fail string
+	// lenient (cases whose chain carries an expression that raises a run-time
+	// error on one row): a read path may return an error instead of a result; what
+	// it may not do is return a nil error with anything but the complete result.
+	lenient   bool
+	errored   int  // read paths that returned an error
+	completed int  // read paths that returned a result
+	midFail   bool // the hand-driven Rows iteration delivered rows and then failed
+}
+
+// tolerated reports whether err is an acceptable outcome of a read path.
+func (k *runner) tolerated(err error) bool {
+	if !k.lenient {
+		return false
+	}
+	if err != nil {
+		k.errored++
+		return true
+	}
+	k.completed++
+	return false
 }
 
 func (k *runner) failf(format string, a ...interface{}) {
@@ -829,6 +859,12 @@ func (k *runner) chain(src string, inline bool) *gorm.DB {
 	for _, cd := range conds {
 		q, a := cd.args()
 		db = db.Where(q, a...)
+	}
+	switch k.c.Expr {
+	case "where":
+		db = db.Where("abs(b) >= ?", 0)
+	case "select":
+		db = db.Select("id, a, abs(b) AS b, s, c, d")
 	}
 	db = applyOrder(db, k.c.Order)
 	if !k.c.CallsFirst {
@@ -892,6 +928,9 @@ func (k *runner) expect(path string, tx *gorm.DB, got []Row, want int, checkAffe
 }
 
 func (k *runner) expectRef(ref *reference, path string, tx *gorm.DB, got []Row, want int, checkAffected bool) {
+	if k.tolerated(tx.Error) {
+		return
+	}
 	if tx.Error != nil {
 		k.failf("%s: unexpected error %v", path, tx.Error)
 		return
@@ -1011,6 +1050,9 @@ func (k *runner) rowsPaths() {
 			path = "Rows+ScanRows(&map)"
 		}
 		rows, err := k.chain(ps, false).Rows()
+		if k.tolerated(err) {
+			continue
+		}
 		if err != nil {
 			k.failf("%s: Rows: unexpected error %v", path, err)
 			return
@@ -1039,6 +1081,16 @@ func (k *runner) rowsPaths() {
 			}
 		}
 		if err := rows.Err(); err != nil {
+			if k.lenient && k.fail == "" {
+				// the database failed while it produced a row: that is the caller's to see
+				// (database/sql reports it), not a result to compare
+				k.errored++
+				if len(got) > 0 {
+					k.midFail = true
+				}
+				rows.Close()
+				continue
+			}
 			k.failf("%s: rows.Err: %v", path, err)
 		}
 		if err := rows.Close(); err != nil {
@@ -1112,6 +1164,9 @@ func (k *runner) pluckPaths() {
 	ps := k.plainSrc()
 	check := func(col, kind string, tx *gorm.DB, got []string) {
 		path := fmt.Sprintf("Pluck(%q, &%s) via %s", col, kind, ps)
+		if k.tolerated(tx.Error) {
+			return
+		}
 		if tx.Error != nil {
 			k.failf("%s: unexpected error %v", path, tx.Error)
 			return
@@ -1266,6 +1321,9 @@ func (k *runner) countPath() {
 	ps := k.plainSrc()
 	var n int64 = -7
 	tx := k.chain(ps, false).Count(&n)
+	if k.c.Expr != "select" && k.tolerated(tx.Error) { // with Select(expr) Count issues count(*) and must not fail
+		return
+	}
 	if tx.Error != nil {
 		k.failf("Count via %s: unexpected error %v", ps, tx.Error)
 		return
@@ -1286,6 +1344,10 @@ func (k *runner) singlePaths() {
 	useInline := len(inl) > 0
 	ss := k.structSrc()
 	judge := func(path string, tx *gorm.DB, have bool, got Row, want *Row) {
+		if k.lenient && tx.Error != nil && !errors.Is(tx.Error, gorm.ErrRecordNotFound) {
+			k.errored++
+			return
+		}
 		if len(k.ref.matched) == 0 {
 			if !errors.Is(tx.Error, gorm.ErrRecordNotFound) {
 				k.failf("%s: nothing matches but the error is %v, want ErrRecordNotFound", path, tx.Error)
@@ -1392,14 +1454,16 @@ func (k *runner) batchPaths() {
 	// Find under key order with the same limit/offset
 	var viaFind []Rec
 	tx := k.chain(ss, false).Order(pk).Find(&viaFind)
-	if tx.Error != nil {
-		k.failf("Find under key order: unexpected error %v", tx.Error)
-		return
-	}
-	findRows := recsToRows(viaFind)
-	if rowsString(findRows) != rowsString(want) {
-		k.failf("Find under key order returned %s, reference %s", rowsString(findRows), rowsString(want))
-		return
+	if !k.tolerated(tx.Error) {
+		if tx.Error != nil {
+			k.failf("Find under key order: unexpected error %v", tx.Error)
+			return
+		}
+		findRows := recsToRows(viaFind)
+		if rowsString(findRows) != rowsString(want) {
+			k.failf("Find under key order returned %s, reference %s", rowsString(findRows), rowsString(want))
+			return
+		}
 	}
 
 	var (
@@ -1445,6 +1509,15 @@ func (k *runner) batchPaths() {
 	if errors.Is(res.Error, errRunaway) {
 		k.failf("%s delivered more rows than the table holds (%d): batches so far %v, rows so far %s, Find under key order returns %s",
 			path, len(k.c.Rows), sizes, rowsString(concat), rowsString(want))
+		return
+	}
+	if k.tolerated(res.Error) {
+		// an error is an outcome; batches handed out before it must still respect the size
+		for i, s := range sizes {
+			if s > k.c.Batch {
+				k.failf("%s: batch %d holds %d rows (the call then failed with %v)", path, i+1, s, res.Error)
+			}
+		}
 		return
 	}
 	if res.Error != nil {
@@ -1683,17 +1756,48 @@ func checkCase(c Case) (violation string, harnessErr error) {
 		return "", err
 	}
 	k := &runner{c: c, db: d, ref: newReference(c)}
+	return k.run(), nil
+}
+
+func (k *runner) run() string {
 	steps := []func(){k.findPaths, k.rowsPaths, k.scanPaths, k.pluckPaths, k.countPath, k.singlePaths, k.batchPaths, k.continuationPaths}
-	if c.Mode == "batch" {
+	switch {
+	case k.c.Mode == "batch":
 		steps = []func(){k.batchPaths}
+	case k.c.Expr == "select":
+		// Pluck would take the six selected columns: not a Pluck; the expression is plucked instead
+		steps = []func(){k.rowsPaths, k.findPaths, k.scanPaths, k.countPath, k.singlePaths, k.batchPaths}
+	case k.c.Expr != "":
+		steps = []func(){k.rowsPaths, k.findPaths, k.scanPaths, k.pluckPaths, k.pluckExpr, k.countPath, k.singlePaths, k.batchPaths}
 	}
 	for _, s := range steps {
 		s()
 		if k.fail != "" {
-			return k.fail, nil
+			return k.fail
 		}
 	}
-	return "", nil
+	return ""
+}
+
+// pluckExpr: Pluck of the failing expression itself.
+func (k *runner) pluckExpr() {
+	ps := k.plainSrc()
+	var v []int64
+	tx := k.chain(ps, false).Pluck("abs(b)", &v)
+	if k.tolerated(tx.Error) {
+		return
+	}
+	if tx.Error != nil {
+		k.failf("Pluck(\"abs(b)\"): unexpected error %v", tx.Error)
+		return
+	}
+	got := make([]string, len(v))
+	for i, x := range v {
+		got[i] = strconv.FormatInt(x, 10)
+	}
+	if msg := k.ref.checkValues("b", got); msg != "" {
+		k.failf("Pluck(\"abs(b)\") via %s: %s; got %v, reference window %s", ps, msg, got, rowsString(k.ref.window))
+	}
 }
 
 // ---- classification -------------------------------------------------------------------------
@@ -1958,8 +2062,10 @@ func TestC15Grid(t *testing.T) {
 var strPool = []string{"", "a", "b", "ab", "B", "a b"}
 var dPool = []string{"", "x", "y"}
 
-func genRows(rt *rapid.T) []Row {
-	n := rapid.IntRange(0, 25).Draw(rt, "size")
+func genRows(rt *rapid.T) []Row { return genRowsN(rt, 0, 25) }
+
+func genRowsN(rt *rapid.T, minSize, maxSize int) []Row {
+	n := rapid.IntRange(minSize, maxSize).Draw(rt, "size")
 	rows := make([]Row, n)
 	id := int64(0)
 	for i := 0; i < n; i++ {
